@@ -225,6 +225,26 @@ def sweep(payload):
                         bad.append('sweep step %d (%.6g MHz) differs from a fresh single-frequency run at line %d: %r vs %r' % (
                             k, fk, j, la[j] if j < len(la) else None, lb[j] if j < len(lb) else None))
                         break
+            # one request does not depend on the others of the same command line: the far-field section (V/m, with and without its
+            # own power level) and the near-field section are the same whether asked for alone or together
+            lam_ = 299.8 / spec['f']
+            nfo = ['--option=near-field', '--near-field=%r,%r,%r,1,1,1,2,1,1' % (2 * lam_, lam_, 1.5 * lam_), '--nf-power=%r' % float('%.3g' % 10 ** rng.uniform(-1, 2))]
+            ffo = ['--option=far-field-absolute', '--ff-distance=%r' % float('%.3g' % 10 ** rng.uniform(1, 4))] + ([] if rng.random() < 0.6 else ['--ff-power=%r' % float('%.3g' % 10 ** rng.uniform(-1, 2))])
+            def sect(txt, first, until=None):
+                i = txt.find(first)
+                if i < 0: return None
+                j = txt.find(until, i + 10) if until else -1
+                return txt[i:(j if j > 0 else len(txt))].rstrip()
+            rcA, tA, eA = _run_main(argv + ffo); rcB, tB, eB = _run_main(argv + nfo); rcC, tC, eC = _run_main(argv + ffo + nfo)
+            if rcA is None and rcB is None and rcC is None:
+                FF = '     FAR FIELD      '; NF = '    NEAR FIELDS     '
+                if sect(tA, FF) != sect(tC, FF, '*' * 20 + NF):
+                    la = (sect(tA, FF) or '').split('\n'); lc = (sect(tC, FF, '*' * 20 + NF) or '').split('\n')
+                    j = next((i for i, (x, y) in enumerate(zip(la, lc)) if x != y), min(len(la), len(lc)))
+                    bad.append('the far-field section changes when a near field is requested on the same command line (%r): line %d %r vs %r'
+                               % (nfo[-1], j, la[j] if j < len(la) else None, lc[j] if j < len(lc) else None))
+                if sect(tB, '*' * 20 + NF) != sect(tC, '*' * 20 + NF):
+                    bad.append('the near-field section changes when a far field is requested on the same command line (%r)' % ffo)
             r['bad'] = bad; r['steps'] = steps
             r['kinds'] = sorted(set(l['kind'] for l in spec['loads']))
         except Exception as e:
